@@ -64,6 +64,7 @@ func newGen(prog *ssa.Program, pkg *ssa.Package, specs *SpecSet) *Gen {
 }
 
 var noRetryFlag bool
+var noRetryNames = map[string]bool{}
 var siteCoversFlag bool
 
 func main() {
@@ -83,7 +84,13 @@ func main() {
 	siteCovers := flag.Bool("sitecovers", false, "add a consistency cover after every call whose contract was assumed (thorough tier)")
 	depsOut := flag.String("deps", "", "proof-dependency audit: write, for every discharged obligation, the contract clauses in its unsat core (and the property tags they lack) to this file")
 	depTags := flag.String("deptags", "/verif/specs/deptags.json", "table of property tags added to clauses by the proof-dependency audit")
+	noRetryFor := flag.String("noretryfor", "", "comma-separated obligation names that are not restarted when undecided (recorded known findings)")
 	flag.Parse()
+	for _, n := range strings.Split(*noRetryFor, ",") {
+		if n = strings.TrimSpace(n); n != "" {
+			noRetryNames[n] = true
+		}
+	}
 
 	initScratch()
 	noRetryFlag = *noRetry
